@@ -9,6 +9,8 @@ META = dict(
     not_covered=['index::broadcast_to element mapping (detour through a flat offset; needs L1 compositionally)', 'variadic fold beyond two operands (follows from the two-operand contract + associativity lemma; the maybe-lifting glue is not under contract)', 'compile-time constant / clipped shapes (type level)', 'broadcast_arrays view glue'],
 )
 UNITS = [
+    Unit('F.broadcast_shape.bp', 'c06', 'verif_f_broadcast_shape', mode='bp', unwind=10, clause='fixed-size operands (template_for branch): succeeds exactly when aligned extents are equal or 1; per-axis maximum'),
+    Unit('F.broadcast_shape32.bp', 'c06', 'verif_f_broadcast_shape32', mode='bp', unwind=10, clause='fixed-size operands of different rank'),
     Unit('shape_broadcast_to.bp', 'c06', 'verif_shape_broadcast_to', mode='bp', unwind=10, clause='broadcast_to succeeds iff each source extent equals the target extent or is 1; stretched/prepended axes are flagged free'),
     Unit('lemma.commutative', 'c06', None, lemma='lemma_bcast_commutative', unwind=10, clause='result does not depend on operand order'),
     Unit('lemma.idempotent', 'c06', None, lemma='lemma_bcast_idempotent', unwind=10, clause='broadcasting a shape with itself changes nothing'),
